@@ -147,6 +147,25 @@ CLAIMS = {
         technique='Lean 4 proof (congruence of the builder, list lemmas about the scanners) + model/implementation '
                   'correspondence + pairwise-equality oracle',
         ref='DESIGN.md §5 C07'),
+    'C17': dict(
+        text='Lean 4 theorems about the template object as a state machine (Tmpl.lean: persistent raw / globals / vars, volatile '
+             'compiled data; operations render, pickle round trip, deepcopy, cook, munge(source / defaults / both), var, default; '
+             'compiler and renderer as engine parameters), for EVERY history of operations: inv_step, cache_invariant (the '
+             'compiled data is absent or the compilation of the current source), render_result, render_history_independent (a call '
+             'after any history returns what a brand-new template with the same source, defaults and variables returns), '
+             'render_keeps_persistent, render_repeatable, pickle_roundtrip, restored_renders_same, munge_eq_fresh, munge_source, '
+             'file_pickles_name. Correspondence: the model\'s state after every operation of random histories vs the real object '
+             '(raw, globals, _vars, presence of _v_cooked) and the model\'s (program, defaults, variables, inputs) of each call '
+             'reproduce its output; oracle: each render == render of a NEW template built through the constructor from the '
+             'documented current source and defaults, repeated renders equal, caller mappings / sequences / keyword values and '
+             'the defaults deep-equal before and after, pickles carry no _v_ data, HTMLFile pickles its name and re-reads',
+        note='Trusted: Lean kernel; the state-machine model is validated against the real object after every operation. Partial: '
+             'that rendering a compiled program depends only on (program, defaults, variables, inputs) — no per-render state kept '
+             'on compiled tags — is an engine parameter, tested by the oracle (10 sources incl. sort_expr / reverse_expr that '
+             'depend on the inputs), not proved',
+        technique='Lean 4 proof (invariant by induction over the operation history, refinement to "fresh template") + '
+                  'model/implementation correspondence after every operation + fresh-template oracle',
+        ref='DESIGN.md §5 C17'),
     'C08': dict(
         text='Lean 4 theorems about the interpreter model (Render.lean: namespace stack, lookups with auto-call, '
              'expressions, every block tag, sub-template calls, dtml-return, exceptions, fault plans as part of the '
